@@ -206,6 +206,17 @@ impl<'tcx> Cx<'tcx> {
             v.push(("inputs_s", J::A(sig.inputs().iter().map(|t| J::s(self.ty_str(*t))).collect())));
             v.push(("output", self.ty_json(sig.output())));
             v.push(("output_s", J::s(self.ty_str(sig.output()))));
+            // names of the type parameters in substitution order (parent's first): lets a call site's type arguments be
+            // matched to the callee's parameters
+            let g = tcx.generics_of(did);
+            let mut gp: Vec<J> = Vec::new();
+            for i in 0..g.count() {
+                let p = g.param_at(i, tcx);
+                if matches!(p.kind, rustc_middle::ty::GenericParamDefKind::Type { .. }) {
+                    gp.push(J::s(p.name.to_string()));
+                }
+            }
+            v.push(("generics", J::A(gp)));
             // is it automatically derived?
             let derived = tcx
                 .opt_parent(did)
